@@ -616,7 +616,8 @@ def _all_any_form(ctx: Ctx, rep: Report, f: Func, paths, tops: str, bottoms: str
 
     cands = []
     for p in paths:
-        r = deep_resolve(p.ret, p.env) if p.ret is not None else None
+        # only the returned name itself is resolved: the lists inside keep their local names (`tops_`, `bottoms_`)
+        r = resolve_local(p.ret, p.env) if p.ret is not None else None
         while isinstance(r, ast.Call) and isinstance(r.func, ast.Name) and r.func.id == "bool" and len(r.args) == 1:
             r = r.args[0]
         if isinstance(r, ast.Call) and isinstance(r.func, ast.Name) and r.func.id in ("all", "any") and len(r.args) == 1 and isinstance(r.args[0], (ast.GeneratorExp, ast.ListComp)):
